@@ -130,9 +130,22 @@ func VerifC18_TraverseNames() {
 	err := res.traverseTree(context.Background(), target, rootID, rec.visitor())
 	verifrt.Assert(err == nil, "traverseTree failed although errors are only reported")
 
+	// a node is ill-formed if its name is invalid or repeats the name of an earlier node of the tree
+	// (duplicate names are reported and skipped, see VerifC18_DuplicateNames)
+	illFormed := func(i int) bool {
+		if !verifC18ValidName(root[i].Name) {
+			return true
+		}
+		for j := 0; j < i; j++ {
+			if verifC18ValidName(root[j].Name) && root[j].Name == root[i].Name {
+				return true
+			}
+		}
+		return false
+	}
 	anyInvalid := false
-	for _, nd := range root {
-		if !verifC18ValidName(nd.Name) {
+	for i := range root {
+		if illFormed(i) {
 			anyInvalid = true
 		}
 	}
@@ -165,14 +178,14 @@ func VerifC18_TraverseNames() {
 		verifrt.Assert(strings.HasPrefix(v.target, target+"/"), "visitor target outside the restore target")
 	}
 	// every well-named node was handed to a visitor (the default filter selects everything)
-	for _, nd := range root {
+	for i, nd := range root {
 		seen := false
 		for _, v := range rec.visits {
 			if v.node == nd {
 				seen = true
 			}
 		}
-		verifrt.Assert(seen == verifC18ValidName(nd.Name), "a well-named node was skipped or an ill-named one visited")
+		verifrt.Assert(seen == !illFormed(i), "a well-named node was skipped or an ill-named one visited")
 	}
 	// --delete works on the list of names of the tree: the names handed to leaveDir are the tree's names
 	for _, v := range rec.visits {
